@@ -24,6 +24,14 @@ type renderer struct {
 	active map[ssa.Value]bool
 	memo   map[ssa.Value]string
 	env    map[*ssa.Phi]ssa.Value // per-path phi resolution (nil: none)
+	cells  []cellEntry            // per-path log of stores to local cells (latest last)
+}
+
+// cellEntry records a store to a local cell along a path; v == nil means the
+// cell escaped into a call and its contents are unknown from here on.
+type cellEntry struct {
+	l loc
+	v ssa.Value
 }
 
 // Render renders the origin of v.
@@ -423,6 +431,39 @@ func (r *renderer) load(u *ssa.UnOp, d int) string {
 	l, ok := addrLoc(u.X)
 	if !ok {
 		return r.lvalue(u.X, d)
+	}
+	if r.cells != nil {
+	scan:
+		for i := len(r.cells) - 1; i >= 0; i-- {
+			e := r.cells[i]
+			if e.l.base != l.base {
+				continue
+			}
+			switch {
+			case e.v == nil:
+				break scan // escaped: unknown
+			case isPrefix(e.l.path, l.path):
+				s := r.val(e.v, d+1)
+				if s == "zero" {
+					return "zero"
+				}
+				t := deref(l.base.Type())
+				for _, f := range e.l.path {
+					if st, ok := t.Underlying().(*types.Struct); ok && f < st.NumFields() {
+						t = st.Field(f).Type()
+					}
+				}
+				for _, f := range l.path[len(e.l.path):] {
+					s += "." + fieldName(t, f)
+					if st, ok := t.Underlying().(*types.Struct); ok && f < st.NumFields() {
+						t = st.Field(f).Type()
+					}
+				}
+				return s
+			case isPrefix(l.path, e.l.path):
+				break scan // partially overwritten: fall back
+			}
+		}
 	}
 	// struct-valued whole load: render as literal of reaching field stores
 	if st, ok := deref(u.X.Type()).Underlying().(*types.Struct); ok && u.Block() != nil && u.Parent() == l.base.Parent() {
